@@ -33,6 +33,7 @@ EXPLANATION += (' R-C11-6: no write reaches the Woehler curve data handed to the
 EXPLANATION += (" R-C11-8: the Gassner cycles (cycles at the largest amplitude times the lifetime multiple of each Miner rule) combine quantities of one failure-probability level only: cycles()/load() evaluate the curve transformed to 50 %, so a lifetime multiple must not read the object's own SD / ND (interprocedural level typing over the Miner classes).")
 EXPLANATION += (' R-C11-9: the reference cycle number of the Gassner line is evaluated on the Miner-elementary modification of the curve (slope k_1 at every amplitude), because the lifetime multiples are derived with the k_1 line as reference.')
 EXPLANATION += (" R-C11-8 also requires Fatigue.damage - the damage the Gassner cycles are measured against - to evaluate the curve at the same 50 % level (an explicit self.failure_probability argument is the native level). R-C11-10 (memo rule): no caching decorator or unreset memo attribute in the Miner / Fatigue / solidity modules; a cache keyed by the identity of a collective returns the first value after its cycle counts were edited in place.")
+EXPLANATION += (' R-C11-11: no absolute tolerance on cycle counts, amplitudes or cycle numbers in miner, solidity, fatigue and the histogram accessor (shared rule sa/tolerance.py; zero instances expected, built-in example).')
 ASSUMPTIONS = ["builtin min/max on floats; np.dot is the plain sum of products"]
 
 
@@ -47,6 +48,18 @@ def run(ctx):
     ctx.attempt(_r8)
     ctx.attempt(_r9)
     ctx.attempt(_r10)
+    ctx.attempt(_r11)
+
+
+def _r11(ctx):
+    """R-C11-11: damage and lifetime are proportional to the cycle counts and homogeneous in the load unit; no absolute
+    tolerance on counts, amplitudes or cycle numbers in the Miner / solidity / fatigue modules and the histogram accessor
+    (shared rule `sa/tolerance.py`) - a class with 1e-9 relative frequency is an occupied class."""
+    from .. import tolerance
+    ctx.rule("R-C11-11", floor=1, what="no absolute tolerance on cycle counts, amplitudes or cycle numbers in the damage accumulation chain")
+    tolerance.run_rule(ctx, ctx.prog, ["pylife.strength.miner", "pylife.strength.solidity", "pylife.strength.fatigue",
+                                       "pylife.stress.collective.load_histogram"],
+                       "cycle counts, amplitudes or cycle numbers")
 
 
 def _r10(ctx):
